@@ -485,3 +485,55 @@ class DistanceAwareFitness_copy(Contract):
             ("same_number_of_values", to_term_int(list_len(nv)) == to_term_int(list_len(s.fields["values"]))),
             ("values_not_shared", z3.BoolVal(nv is not s.fields["values"])),
         ]
+
+
+@register
+class DistanceAwareFitness_fitness(Contract):
+    """the override used by comparison constraints refines what callers assume about ConstraintFitness.fitness():
+    with values in {0.0, 1.0} (what _evaluate_comparison returns: verified in contracts/constraints.py), solved = number of
+    ones and total = number of values (how __init__ sets them), the mean is 1.0 exactly when all values are 1.0, lies in
+    [0, 1] and is at most 1 - 2^-G otherwise (total <= 2^G)"""
+    target = "constraints/fitness.py:DistanceAwareConstraintFitness.fitness"
+    properties = ("C02", "C03")
+    float_mode = "real"
+    anchors = (1.0 - 2.0 ** -G, 1.0, 0.0)
+
+    def inputs(self, cx):
+        from pyvc.lists import term_list
+        s = SObj("DistanceAwareConstraintFitness", {}, fresh=False, label="self")
+        n = cx.int("n_values", lo=0, hi=2 ** G)
+        vals = term_list(cx, "values", n, "float", fresh=False)
+        s.fields["values"] = vals
+        cx.ghost["vals"] = vals
+        cx.ghost["n"] = n
+        from pyvc import lemmas
+
+        def on_sum(cx_, rec):
+            cx_.ghost["count_fn"] = lemmas.float_sum01(cx_, rec)
+
+        cx.ghost["on_sum"] = on_sum
+        return {"self": s}
+
+    def requires(self, cx, a):
+        vals = cx.ghost["vals"]
+        fn = vals.ghost["elem_term"][1]
+        j = z3.Int("vj")
+        n = cx.ghost["n"].term
+        return [("values_are_zero_or_one", z3.ForAll([j], Implies(And(j >= 0, j < n), Or(fn(j) == 0, fn(j) == 1))))]
+
+    def ensures(self, cx, a, r):
+        from pyvc import lemmas
+        sums = cx.ghost.get("sums", [])
+        n = cx.ghost["n"].term
+        f = as_float(r)
+        if not sums:
+            # no values: the method returns 0
+            return [("empty_gives_zero", And(n == 0, feq(f, 0.0)))]
+        C = cx.ghost["count_fn"]
+        solved, total = C(n), n          # what DistanceAwareConstraintFitness.__init__ stores in solved / total
+        full = And(total > 0, solved == total)
+        return [
+            ("one_iff_all_values_are_one", feq(f, 1.0) == full),
+            ("in_unit_interval", And(fge(f, 0.0), fle(f, 1.0))),
+            ("below_one_has_gap", Implies(Not(feq(f, 1.0)), fle(f, 1.0 - 2.0 ** -G))),
+        ]
